@@ -172,9 +172,10 @@ class Gir:
         except Unanalysable as ex:
             return T('top', why=f'literal: {ex}', l=e.get('l'))
 
-    def cls(self, e, l):
+    def cls(self, e, l, ctx=None):
         try:
-            return self.ev.byteset(e)
+            # (a class held in a local — `let digits = DIGIT;` of an expanded helper — is the class it was bound to)
+            return self.ev.byteset(e, (ctx or {}).get('vals'))
         except Unanalysable as ex:
             self.errors.append((l, str(ex)))
             return None
@@ -203,7 +204,7 @@ class Gir:
             return T('top', why=f'winnow item `{p}`', l=l)
         if seg == 'take_while':
             r = self.rng(args[0])
-            s = self.cls(args[1], l)
+            s = self.cls(args[1], l, ctx)
             if s is None:
                 return T('top', why='unanalysable class', l=l)
             if r and r[0] == 'sym':
@@ -212,12 +213,12 @@ class Gir:
         if seg in ('take_till', 'take_until'):
             return T('tok', min=0, max=INF, set=ALL, kind=seg, l=l, node=e)
         if seg == 'one_of':
-            s = self.cls(args[0], l)
+            s = self.cls(args[0], l, ctx)
             if s is None:
                 return T('top', why='unanalysable class', l=l)
             return T('tok', min=1, max=1, set=s, kind='one_of', l=l, node=e)
         if seg == 'none_of':
-            s = self.cls(args[0], l)
+            s = self.cls(args[0], l, ctx)
             if s is None:
                 return T('top', why='unanalysable class', l=l)
             return T('tok', min=1, max=1, set=ALL - s, kind='none_of', l=l, node=e, excl=s)
@@ -344,6 +345,8 @@ class Gir:
         if k == 'let':
             t = self.stmt(e['init'], ctx) if 'init' in e else T('empty')
             pat = e.get('pat', {})
+            if pat.get('k') == 'p_bind' and 'init' in e:
+                ctx.setdefault('vals', {})[pat['name']] = e['init']
             if pat.get('k') == 'p_bind' and t['op'] != 'empty':
                 ctx['env']['@' + pat['name']] = t
             if 'else' in e and t['op'] != 'empty':
@@ -550,6 +553,19 @@ class Gir:
         for n, v in list(env.items()):
             if v == 18446744073709551615:
                 env[n] = INF
+        return env
+
+    def value_env(self, t):
+        """generic_env plus the integer arguments of a call of a parser-building function (`hexescape(4)` instead of `hexescape::<4>`), bound to its parameters"""
+        env = dict(self.generic_env(t)) if t.get('gargs') else {}
+        if t.get('op') == 'call' and isinstance(t.get('node'), dict):
+            b = self.facts.bodies.get(t.get('fn'), {})
+            for p, a in zip(b.get('params', []), t['node'].get('args', [])):
+                if p.get('k') == 'p_bind' and (p.get('t') or '') in ('usize', 'u8', 'u16', 'u32', 'u64', 'isize', 'i32', 'i64'):
+                    try:
+                        env[p['name']] = self.ev.integer(a)
+                    except Unanalysable:
+                        pass
         return env
 
     # ------------------------------------------------------------------ attributes (least fixpoints)
